@@ -357,6 +357,121 @@ pub fn inject_client(st: &ClientState, d: &[u8], authentic: bool) -> (u64, Optio
     (6, None)
 }
 
+
+/// scale class: the same non-authentic datagram `n` times in a row (no authentic traffic in between), then one
+/// zero-length server frame (`update` + `update_client` of every connected id): nothing observable may have changed,
+/// nobody may be reported disconnected, and the genuine follow-up is still accepted
+pub fn flood_server(fx: &Fixture, st: &ServerState, d: &[u8], n: usize) -> (u64, Option<Violation>) {
+    if is_valid_request(fx, d) {
+        return (1, None);
+    }
+    let mut s = st.server.clone();
+    let before = s.verif_snapshot();
+    for k in 0..n {
+        match nc::srv_process(&mut s, st.from, d) {
+            Err(v) => return (0, Some(Violation::new(format!("C07/{}", v.signature), format!("server, {}, copy {} of {}: {}", st.name, k + 1, n, v.message)))),
+            Ok(SR::None) => {}
+            Ok(r) => {
+                return (
+                    2,
+                    Some(Violation::new(
+                        format!("C07/non-authentic-datagram-produces-{}", r.kind()),
+                        format!("server, {}: copy {} of {} of a non-authentic datagram ({} bytes, prefix {:#04x}) produced {}", st.name, k + 1, n, d.len(), d.first().copied().unwrap_or(0), r.kind()),
+                    )),
+                )
+            }
+        }
+    }
+    let mut after = s.verif_snapshot();
+    for (a, b) in after.pending.iter_mut().zip(before.pending.iter()) {
+        a.last_packet_received_time = b.last_packet_received_time;
+    }
+    if after != before {
+        return (
+            3,
+            Some(Violation::new(
+                "C07/non-authentic-datagrams-change-server-state/flood",
+                format!("server, {}: {} copies of a non-authentic datagram ({} bytes, prefix {:#04x}) from {} changed the observable state", st.name, n, d.len(), d.first().copied().unwrap_or(0), st.from),
+            )),
+        );
+    }
+    let ids = s.clients_id();
+    if let Err(v) = crate::link::guard("NetcodeServer::update", || s.update(Duration::from_millis(1))) {
+        return (4, Some(v));
+    }
+    for id in ids {
+        match nc::srv_update_client(&mut s, id) {
+            Err(v) => return (4, Some(v)),
+            Ok(SR::Disconnected { .. }) => {
+                return (
+                    5,
+                    Some(Violation::new(
+                        "C07/non-authentic-datagrams-disconnect-a-client",
+                        format!("server, {}: after {} copies of a non-authentic datagram ({} bytes, prefix {:#04x}) from {} client {} is reported disconnected", st.name, n, d.len(), d.first().copied().unwrap_or(0), st.from, id),
+                    )),
+                )
+            }
+            Ok(_) => {}
+        }
+    }
+    match nc::srv_process(&mut s, st.from, &st.follow_up) {
+        Err(v) => (4, Some(Violation::new(format!("C07/{}", v.signature), v.message))),
+        Ok(r) if r.kind() != st.follow_kind => (
+            6,
+            Some(Violation::new(
+                "C07/genuine-traffic-rejected-afterwards",
+                format!("server, {}: after {} copies of a hostile datagram the genuine follow-up produced {} instead of {}", st.name, n, r.kind(), st.follow_kind),
+            )),
+        ),
+        Ok(_) => (7, None),
+    }
+}
+
+pub fn flood_client(st: &ClientState, d: &[u8], n: usize) -> (u64, Option<Violation>) {
+    let mut c = st.client.clone();
+    let before = c.verif_snapshot();
+    for k in 0..n {
+        match nc::cli_process(&mut c, d) {
+            Err(v) => return (0, Some(Violation::new(format!("C07/{}", v.signature), format!("client, {}, copy {} of {}: {}", st.name, k + 1, n, v.message)))),
+            Ok(Some(_)) => return (2, Some(Violation::new("C07/non-authentic-datagram-surfaces-payload", format!("client, {}: payload surfaced from copy {} of a non-authentic datagram", st.name, k + 1)))),
+            Ok(None) => {}
+        }
+    }
+    let after = c.verif_snapshot();
+    if after != before {
+        return (
+            3,
+            Some(Violation::new(
+                "C07/non-authentic-datagrams-change-client-state/flood",
+                format!("client, {}: {} copies of a non-authentic datagram ({} bytes, prefix {:#04x}) changed {:?} into {:?}", st.name, n, d.len(), d.first().copied().unwrap_or(0), before.state, after.state),
+            )),
+        );
+    }
+    if let Some(f) = &st.follow_up {
+        match nc::cli_process(&mut c, f) {
+            Err(v) => return (4, Some(Violation::new(format!("C07/{}", v.signature), v.message))),
+            Ok(p) => {
+                let ok = if st.follow_payload { p.is_some() } else { c.verif_snapshot().state != before.state };
+                if !ok {
+                    return (5, Some(Violation::new("C07/genuine-traffic-rejected-afterwards", format!("client, {}: the genuine follow-up datagram was not accepted after {} copies of a hostile one", st.name, n))));
+                }
+            }
+        }
+    }
+    (6, None)
+}
+
+/// the datagrams used for the flood: every `stride`-th one of the sweep's list
+pub fn flood_picks(n_datagrams: usize, tier: Tier) -> Vec<usize> {
+    let want = tier.pick(48usize, 400);
+    let stride = (n_datagrams / want).max(1) | 1;
+    (0..n_datagrams).step_by(stride).collect()
+}
+
+pub fn flood_counts(tier: Tier) -> Vec<usize> {
+    tier.pick(vec![2, 32, 33, 256, 257, 1100], vec![2, 3, 16, 31, 32, 33, 64, 65, 100, 128, 255, 256, 257, 512, 1000, 1024, 1025, 5000])
+}
+
 // ---- tokens ----
 
 pub fn token_byte_strings(tier: Tier) -> Vec<(String, Vec<u8>)> {
@@ -549,6 +664,32 @@ pub fn run(tier: Tier) -> i32 {
             J::obj().set("kind", J::s("client")).set("state", J::i(si as u64)).set("state_name", J::s(fx.client_states[si].name)).set("datagram_index", J::i(di as u64)).set("datagram", J::s(ds[di].0.clone())),
         );
     }
+    // floods
+    {
+        let picks = flood_picks(ds.len(), tier);
+        let counts = flood_counts(tier);
+        let (np, ncn) = (picks.len(), counts.len());
+        let r = explore::sweep(np * ncn * ns, |i| {
+            let (si, pi, ci) = (i % ns, (i / ns) % np, i / ns / np);
+            let (o, v) = flood_server(&fx, &fx.server_states[si], &ds[picks[pi]].1, counts[ci]);
+            (h64(&(si, o, ci)), v)
+        });
+        rep.add_sweep("server-floods", r.cases, r.distinct_outcomes, ns as u64, vec![format!("{} datagrams of the sweep x {:?} copies in a row x {} server states", np, counts, ns)]);
+        for (i, v) in r.found {
+            let (si, pi, ci) = (i % ns, (i / ns) % np, i / ns / np);
+            rep.violation("server-floods", v, J::obj().set("kind", J::s("server-flood")).set("state", J::i(si as u64)).set("datagram_index", J::i(picks[pi] as u64)).set("copies", J::i(counts[ci] as u64)).set("datagram", J::s(ds[picks[pi]].0.clone())));
+        }
+        let r = explore::sweep(np * ncn * ncs, |i| {
+            let (si, pi, ci) = (i % ncs, (i / ncs) % np, i / ncs / np);
+            let (o, v) = flood_client(&fx.client_states[si], &ds[picks[pi]].1, counts[ci]);
+            (h64(&(si, o, ci)), v)
+        });
+        rep.add_sweep("client-floods", r.cases, r.distinct_outcomes, ncs as u64, vec![format!("{} datagrams x {:?} copies x {} client states", np, counts, ncs)]);
+        for (i, v) in r.found {
+            let (si, pi, ci) = (i % ncs, (i / ncs) % np, i / ncs / np);
+            rep.violation("client-floods", v, J::obj().set("kind", J::s("client-flood")).set("state", J::i(si as u64)).set("datagram_index", J::i(picks[pi] as u64)).set("copies", J::i(counts[ci] as u64)).set("datagram", J::s(ds[picks[pi]].0.clone())));
+        }
+    }
     // tokens
     let ts = token_byte_strings(tier);
     let r = explore::sweep(ts.len(), |i| token_case(&ts[i].1));
@@ -589,6 +730,26 @@ pub fn replay(j: &J) -> i32 {
                 inject_server(&fx, &fx.server_states[si.min(2)], &d.1).1
             } else {
                 inject_client(&fx.client_states[si.min(3)], &d.1, false).1
+            }
+        }
+        Some(k @ ("server-flood" | "client-flood")) => {
+            let fx = match fixture() {
+                Ok(f) => f,
+                Err(v) => {
+                    println!("RESULT: violation {} — {}", v.signature, v.message);
+                    return 1;
+                }
+            };
+            let ds = datagrams(&fx, tier);
+            let di = j.get("datagram_index").and_then(|x| x.as_i()).unwrap_or(0) as usize;
+            let si = j.get("state").and_then(|x| x.as_i()).unwrap_or(0) as usize;
+            let n = j.get("copies").and_then(|x| x.as_i()).unwrap_or(2) as usize;
+            let Some(d) = ds.get(di) else { return 2 };
+            println!("{} state {}; {} copies of datagram: {} [{}]", k, si, n, d.0, nc::hexs(&d.1));
+            if k == "server-flood" {
+                flood_server(&fx, &fx.server_states[si.min(2)], &d.1, n).1
+            } else {
+                flood_client(&fx.client_states[si.min(3)], &d.1, n).1
             }
         }
         _ => return 2,
